@@ -540,7 +540,16 @@ class GC(G):
                     self.declare(Var(j, "num", True))
                 inner.append(("expr", ("call", ("prop", ("var", acc), "push"), [self.closure_body(0)])))
                 self.scopes.pop()
-                body.append(("for", item, ("call", ("prop", ("num", float(n)), "times"), []), inner))
+                iterable = ("call", ("prop", ("num", float(n)), "times"), [])
+                vs = self.visible(lambda v: v.kind == "num")
+                if vs and self.chance(40):
+                    # the iterable is computed from visible variables, half of the time inside a lambda that is
+                    # called on the spot: it is evaluated before the loop variable exists
+                    elems = [("var", self.pick(vs).name) for _ in range(n)]
+                    iterable = ("list", elems)
+                    if self.chance(50):
+                        iterable = ("call", ("group", ("lambda", [], ("expr", iterable))), [])
+                body.append(("for", item, iterable, inner))
                 lists.append((acc, n))
             elif c < 66 and made:
                 g, k = self.pick(made)
